@@ -175,7 +175,7 @@ def set_salt(x):
 
 
 VARIANTS = ("direct", "direct", "copy", "rebuild", "positional", "fresh_strings", "numpy_scalars", "pickle", "copy_kw",
-            "deepcopy", "subclass")
+            "deepcopy", "subclass", "sub_fixed", "sub_defaults", "sub_extra")
 _SUBCLASSES = {}
 
 
@@ -211,6 +211,42 @@ def variant(cls, params, key, first_positional=None):
             if sub is None:
                 sub = _SUBCLASSES[cls] = type(cls.__name__, (cls,), {"__module__": cls.__module__, "__doc__": cls.__doc__})
             return sub(*args, **params)
+        if route == "sub_fixed":
+            # a user's subclass that fixes the configuration and declares no parameters of its own
+            # (class ManhattanTOPSIS(TOPSIS): _skcriteria_parameters = []; __init__ calls super().__init__(metric=...))
+            _a, _p = args, dict(params)
+
+            class Fixed(cls):
+                _skcriteria_parameters = []
+
+                def __init__(self):
+                    super().__init__(*_a, **_p)
+            Fixed.__name__, Fixed.__qualname__, Fixed.__module__ = cls.__name__, cls.__qualname__, cls.__module__
+            return Fixed()
+        if route == "sub_defaults" and first_positional is None and params:
+            # a user's subclass that only changes the DEFAULTS of the parameters (and is then used with its defaults)
+            names = list(params)
+            ns = {"_d": dict(params), "_base": cls}
+            src = ("def __init__(self, *, " + ", ".join(f"{n}=_d[{n!r}]" for n in names) + "):\n"
+                   "    _base.__init__(self, " + ", ".join(f"{n}={n}" for n in names) + ")\n")
+            exec(src, ns)       # noqa: S102  (parameter names come from the harness's own tables)
+            sub = type(cls.__name__, (cls,), {"__init__": ns["__init__"], "__module__": cls.__module__,
+                                              "_skcriteria_parameters": list(cls._skcriteria_parameters)})
+            return sub()
+        if route == "sub_extra" and first_positional is None:
+            # a user's subclass that adds a parameter of its own and forwards the inherited ones through **kwargs
+            class Extra(cls):
+                _skcriteria_parameters = list(cls._skcriteria_parameters) + ["verif_extra"]
+
+                def __init__(self, verif_extra=1.5, **kwargs):
+                    super().__init__(**kwargs)
+                    self._verif_extra = verif_extra
+
+                @property
+                def verif_extra(self):
+                    return self._verif_extra
+            Extra.__name__, Extra.__qualname__, Extra.__module__ = cls.__name__, cls.__qualname__, cls.__module__
+            return Extra(verif_extra=2.5, **params)
         if route == "copy_kw" and first_positional is None and params:
             return cls().copy(**params)
         if route == "positional" and params:
@@ -237,7 +273,7 @@ def variant(cls, params, key, first_positional=None):
     except TypeError:
         return base
     except Exception:  # noqa: BLE001
-        if route in ("deepcopy", "subclass"):
+        if route in ("deepcopy", "subclass", "sub_fixed", "sub_defaults", "sub_extra"):
             return base
         raise
     return base
